@@ -777,7 +777,22 @@ def _degenerate_axis_fallback(repo, clause):
         lin = (not rnd) and (not consts) and (not case_split) and bool(others) and all(
             all((not isinstance(y, ast.Name)) or y.id in (v1, "np", "numpy") for y in ast.walk(o_)) for o_ in others)
         ok3 = not consts and not lin
-        kind = "random (never parallel to the input, almost surely)" if rnd else (
+        # a case split that picks a coordinate axis by arg-min / arg-max of the input's components: only the axis of the smallest ABSOLUTE component is safely non-parallel
+        bad_pick = None
+        if not rnd:
+            for a_ in args:
+                for y in ast.walk(a_):
+                    if isinstance(y, ast.Call) and call_name(y) in ("argmin", "argmax") and (y.args or isinstance(y.func, ast.Attribute)):
+                        operand = y.args[0] if y.args else y.func.value
+                        has_abs = any(isinstance(z, ast.Call) and call_name(z) in ("abs", "absolute", "fabs", "square") for z in ast.walk(operand)) or \
+                            any(isinstance(z, ast.BinOp) and isinstance(z.op, ast.Pow) for z in ast.walk(operand))
+                        if call_name(y) == "argmin" and not has_abs:
+                            bad_pick = "`%s` takes the most NEGATIVE component, not the smallest in magnitude: for an input along -x (or -y, -z) that is the component along the input itself, the picked axis is parallel to it and the cross product vanishes" % ast.unparse(y)[:40]
+                        elif call_name(y) == "argmax":
+                            bad_pick = "`%s` picks the axis the input is MOST aligned with: for an input along a coordinate axis the helper is parallel to it and the cross product vanishes" % ast.unparse(y)[:40]
+        if bad_pick:
+            ok3 = False
+        kind = bad_pick if bad_pick else "random (never parallel to the input, almost surely)" if rnd else (
             "a CONSTANT vector: inputs along it give a zero axis and a degenerate rotation, so occurrences in that pose are lost" if consts else (
                 "a deterministic, branch-free function of the input alone: cross(v, f(v)) is a continuous tangent field on the sphere and therefore ZERO for some direction (e.g. along an eigenvector of f); poses along that direction are lost" if lin else "input-dependent with a case split"))
         d3 = "fallback axis = %s: helper is %s" % (ast.unparse(n.value)[:70], kind)
@@ -787,7 +802,8 @@ def _degenerate_axis_fallback(repo, clause):
         d3 = "fallback axis = %s: %s" % (ast.unparse(n.value)[:70],
                                          "a FIXED LINEAR construction from the components of the input (it equals w x v for one fixed w): it is the zero vector for inputs along w, the rotation degenerates and occurrences in that pose are lost"
                                          if lin else "not a cross product with a helper vector")
-    obs.append(Ob("A14", clause, fn, n, ok3, d3, slot="fallback-axis-helper", positive=bool(consts) or lin, undecided=not (bool(consts) or lin)))
+    bad_pick_ = locals().get("bad_pick")
+    obs.append(Ob("A14", clause, fn, n, ok3, d3, slot="fallback-axis-helper", positive="robust" if bad_pick_ else (bool(consts) or lin), undecided=not (bool(consts) or lin or bool(bad_pick_))))
     return obs
 
 
